@@ -107,6 +107,36 @@ impl RefPacket {
     /// RFC encoding without compression. The OPT pseudo-record, if any, is placed at index
     /// `opt_pos` of the additional section (clamped).
     pub fn encode(&self, opt_pos: usize) -> Vec<u8> {
+        self.encode_with(opt_pos, &mut |n, out, _| n.encode(out))
+    }
+
+    /// RFC encoding in which names are compressed greedily: every name (or only names in
+    /// positions where RFC 1035 allows it, when `everywhere` is false) is written as the longest
+    /// suffix already present at an offset < 0x4000, as a pointer to its first occurrence.
+    pub fn encode_compressed(&self, opt_pos: usize, everywhere: bool) -> Vec<u8> {
+        let mut table: Vec<(Vec<B>, usize)> = Vec::new();
+        self.encode_with(opt_pos, &mut |n, out, where_| {
+            let allowed = everywhere
+                || matches!(where_, NamePos::Question | NamePos::Owner | NamePos::Rdata(schema::Comp::Rfc1035));
+            for i in 0..n.0.len() {
+                let suffix = &n.0[i..];
+                if allowed {
+                    if let Some((_, off)) = table.iter().find(|(s, _)| s[..] == *suffix) {
+                        out.extend_from_slice(&(0xc000u16 | *off as u16).to_be_bytes());
+                        return;
+                    }
+                }
+                if out.len() < 0x4000 {
+                    table.push((suffix.to_vec(), out.len()));
+                }
+                out.push(n.0[i].0.len() as u8);
+                out.extend_from_slice(&n.0[i].0);
+            }
+            out.push(0);
+        })
+    }
+
+    pub fn encode_with(&self, opt_pos: usize, wn: &mut dyn FnMut(&RefName, &mut Vec<u8>, NamePos)) -> Vec<u8> {
         let mut out = Vec::new();
         out.extend_from_slice(&self.id.to_be_bytes());
         let flags = (self.flags & FLAG_MASK) | (((self.opcode & 0xf) as u16) << 11) | (self.rcode & 0xf);
@@ -117,20 +147,20 @@ impl RefPacket {
         let ar = self.additional.len() + usize::from(self.opt.is_some());
         out.extend_from_slice(&(ar as u16).to_be_bytes());
         for q in &self.questions {
-            q.name.encode(&mut out);
+            wn(&q.name, &mut out, NamePos::Question);
             out.extend_from_slice(&q.qtype.to_be_bytes());
             let c = q.qclass | if q.unicast { 0x8000 } else { 0 };
             out.extend_from_slice(&c.to_be_bytes());
         }
         for rr in self.answers.iter().chain(self.authority.iter()) {
-            encode_rr(rr, &mut out);
+            encode_rr_with(rr, &mut out, wn);
         }
         let pos = opt_pos.min(self.additional.len());
         for (i, rr) in self.additional.iter().enumerate() {
             if i == pos {
                 self.encode_opt(&mut out);
             }
-            encode_rr(rr, &mut out);
+            encode_rr_with(rr, &mut out, wn);
         }
         if pos == self.additional.len() {
             self.encode_opt(&mut out);
@@ -154,8 +184,19 @@ impl RefPacket {
     }
 }
 
+#[derive(Clone, Copy, PartialEq, Eq, Debug)]
+pub enum NamePos {
+    Question,
+    Owner,
+    Rdata(schema::Comp),
+}
+
 pub fn encode_rr(rr: &RefRR, out: &mut Vec<u8>) {
-    rr.name.encode(out);
+    encode_rr_with(rr, out, &mut |n, out, _| n.encode(out))
+}
+
+pub fn encode_rr_with(rr: &RefRR, out: &mut Vec<u8>, wn: &mut dyn FnMut(&RefName, &mut Vec<u8>, NamePos)) {
+    wn(&rr.name, out, NamePos::Owner);
     out.extend_from_slice(&rr.rdata.code().to_be_bytes());
     let c = match &rr.rdata {
         RefRData::StrayOpt(o) => o.udp,
@@ -163,10 +204,20 @@ pub fn encode_rr(rr: &RefRR, out: &mut Vec<u8>) {
     };
     out.extend_from_slice(&c.to_be_bytes());
     out.extend_from_slice(&rr.ttl.to_be_bytes());
-    let mut rd = Vec::new();
-    rr.rdata.encode(&mut rd);
-    out.extend_from_slice(&(rd.len() as u16).to_be_bytes());
-    out.extend_from_slice(&rd);
+    // RDATA is written in place (so that compression offsets are message offsets), RDLENGTH patched
+    let lp = out.len();
+    out.extend_from_slice(&[0, 0]);
+    match &rr.rdata {
+        RefRData::Typed { code, vals } => schema::encode_vals_with(
+            schema::schema(*code).expect("schema"),
+            vals,
+            out,
+            &mut |n, out, c| wn(n, out, NamePos::Rdata(c)),
+        ),
+        other => other.encode(out),
+    }
+    let l = (out.len() - lp - 2) as u16;
+    out[lp..lp + 2].copy_from_slice(&l.to_be_bytes());
 }
 
 #[derive(Debug, Clone, PartialEq, Eq)]
